@@ -60,6 +60,19 @@ def run_query(B, Q, k, emb_name, metric, tree, leaf, perm, spelling, shuffle=Tru
     return plist, cls, fsh.used
 
 
+def run_self_query(B, k, emb_name, perm):
+    """The index is queried with the very array objects it was built from."""
+    from typhon.geographical import GeoIndex
+    lat, lon = ring.latlon(EMB[emb_name], B)
+    with ForcedShuffle(perm) as fsh:
+        idx = GeoIndex(lat, lon)
+    pairs, dist = idx.query(lat, lon, ring.threshold_km(k, N, "minkowski"))
+    pairs = np.asarray(pairs)
+    if pairs.size == 0:
+        return [], [], fsh.used
+    return [(int(a) + 1, int(b) + 1) for a, b in zip(pairs[0], pairs[1])], [ring.classify(float(d), N, "minkowski") for d in dist], fsh.used
+
+
 def check_result(col, case, k, exp, got, conf):
     plist, cls, _ = got
     exp_pairs = sorted((a, b) for a, b, _ in exp)
@@ -118,6 +131,16 @@ def replay_case(col, item):
                 col.bump("shuffle_not_instrumented")
             col.count(1)
             check_result(col, case, k, exp, got, conf)
+        # self-query with identical array objects, under the last (most scrambled) permutation
+        if "self" in case:
+            conf = {"embedding": "tilted", "metric": "minkowski", "self_query_same_objects": True, "perm": list(perms[-1])}
+            try:
+                got = run_self_query(B, k, "tilted", perms[-1])
+                col.count(1)
+                check_result(col, dict(case, Q=B), k, case["self"][k_s], got, conf)
+            except Exception as ex:
+                col.violation("query-raises-" + type(ex).__name__, {"abstract": {"N": N, "B": B, "Q": "same objects", "k": k},
+                                                                    "concrete": conf, "observed": repr(ex)[:200]})
         # shuffle off and return_distance=False are configurations of the same property
         conf = {"embedding": "equator", "metric": "minkowski", "tree": "Ball", "leaf_size": 40, "perm": None, "shuffle": False}
         try:
